@@ -240,3 +240,38 @@ Theorem C03_c_wps_use_pruning_is_a_bound :
   = c_dtw_warping_paths_ndim ce shiftf ced1 ced2 wps0 f1 zl1 f2 zl2 rdtw keep pneg nd wlen a1 a2 a3 a4 a5 a6 a7 a8 a9 ms
       (if (nd =? 1)%Z then ced2 else ced1) pn idist false zp1b zp1e zp2b zp2e false.
 Proof. exact c_wps_use_pruning_is_a_bound. Qed.
+
+(* ... and the same for the Euclidean twin dtw_warping_paths_ndim_euclidean (inner_dist = "euclidean"), regenerated whole. *)
+Theorem C03_c_wps_euclidean_kernel_with_bound_as_written :
+  forall (window p m mld : Z) (psi : (nat * nat) * (nat * nat)), (0 <= window)%Z ->
+  let uab := c_to_u (cs_of window p m mld psi AbsDiff) in
+  forall (s1 s2 : list point) (d : nat),
+  (forall q, In q s1 -> length q = d) -> (forall q, In q s2 -> length q = d) ->
+  (1 <= length s1)%nat -> (1 <= length s2)%nat ->
+  (psi_1b uab <= length s1)%nat -> (psi_2b uab <= length s2)%nat ->
+  (0 <= p)%Z -> (psi_1b uab < length s1 \/ psi_2e uab < length s2)%nat ->
+  forall (B : cost) cub1 cub2 (wps0 : list cost) (keep : bool),
+  let l1 := Z.of_nat (length s1) in let l2 := Z.of_nat (length s2) in
+  let W := CWps.cw_width l1 l2 window in
+  Z.of_nat (length wps0) = ((l1 + 1) * W)%Z ->
+  exists wps',
+    c_dtw_warping_paths_ndim_euclidean (CWps.cw_shift l1 l2 window) cub1 cub2 wps0 (concat s1) l1 (concat s2) l2 true keep false (Z.of_nat d)
+      ((l1 + 1) * W)%Z (c_parts_ldiff l1 l2) (c_parts_ldiffr l1 l2 (c_parts_ldiff l1 l2))
+      (c_parts_ldiffc l1 l2 (c_parts_ldiff l1 l2)) (c_parts_window l1 l2 window) W
+      (c_parts_ri1 l1 (c_parts_overlap_left l1 (c_parts_ldiffr l1 l2 (c_parts_ldiff l1 l2)) (c_parts_window l1 l2 window))
+                      (c_parts_overlap_right l1 (c_parts_ldiffr l1 l2 (c_parts_ldiff l1 l2)) (c_parts_window l1 l2 window)))
+      (c_parts_ri2 l1 (c_parts_overlap_left l1 (c_parts_ldiffr l1 l2 (c_parts_ldiff l1 l2)) (c_parts_window l1 l2 window)))
+      (c_parts_ri3 l1 (c_parts_overlap_left l1 (c_parts_ldiffr l1 l2 (c_parts_ldiff l1 l2)) (c_parts_window l1 l2 window))
+                      (c_parts_overlap_right l1 (c_parts_ldiffr l1 l2 (c_parts_ldiff l1 l2)) (c_parts_window l1 l2 window)))
+      (adj_max_step uab) B (Fin (adj_penalty uab)) false (Z.of_nat (psi_1b uab)) (Z.of_nat (psi_1e uab))
+      (Z.of_nat (psi_2b uab)) (Z.of_nat (psi_2e uab)) false
+    = (RPlain (bounded B (dtw_value uab s1 s2)), wps', true) /\
+    Z.of_nat (length wps') = ((l1 + 1) * W)%Z /\
+    forall (i : nat) (s : Z), (Z.of_nat i <= l1)%Z -> (0 <= s < W)%Z ->
+      (s + CWps.cw_shift l1 l2 window (Z.of_nat i - 1) <= l2)%Z ->
+      ((s + CWps.cw_shift l1 l2 window (Z.of_nat i - 1))%Z = 0%Z -> (Z.of_nat i <= CWps.cw_ri2 l1 l2 window)%Z) ->
+      PyDistPrune.Q B (aget wps' (Z.of_nat i * W + s)) (mget (wps_matrix uab s1 s2) i (Z.to_nat (s + CWps.cw_shift l1 l2 window (Z.of_nat i - 1)))).
+Proof.
+  intros window p m mld psi Hw uab s1 s2 d Hd1 Hd2 H1 H2 Hp1 Hp2 Hp Hpsi.
+  exact (c_wps_eu_kernel_bounded window p m mld psi Hw s1 s2 d Hd1 Hd2 H1 H2 Hp1 Hp2 Hp Hpsi).
+Qed.
